@@ -19,7 +19,7 @@ ITEMS = {
     "plainiter": ["%s-0", "%s-1"],
 }
 LETTERS = [("next", 0), ("next", 1), ("close", 0), ("close", 1), ("release", 0), ("release", 1), ("reconnect", 0), ("reconnect", 1),
-           ("hk",), ("tick", 10), ("tick", 40), ("ping", 0), ("ping", 1)]
+           ("hk",), ("tick", 10), ("tick", 40), ("ping", 0), ("ping", 1), ("break", 0), ("break", 1)]
 
 
 class MStream:
@@ -125,9 +125,18 @@ def play(cfg, hist, V, st):
             elif op == "hk":
                 w.on_server(d._housekeeping)
                 m.housekeeping()
+            elif op == "break":
+                # the connection is reset underneath the proxy, which only notices at its next request
+                p = step[1]
+                if p >= len(proxies) or m.connected[p] is not True or not cfg["streaming"]:
+                    continue
+                proxies[p]._pyroConnection.sock.do_reset()
+                m.connected[p] = "broken"
+                m.server_disconnect(p)
+                m.housekeeping()
             elif op == "ping":
                 p = step[1]
-                if p >= len(proxies) or not m.connected[p]:
+                if p >= len(proxies) or m.connected[p] is not True:
                     continue
                 r = proxies[p].ping()
                 if r != "pong":
@@ -138,9 +147,11 @@ def play(cfg, hist, V, st):
                 if p >= len(proxies) or not m.connected[p]:
                     continue
                 proxies[p]._pyroRelease()
+                was = m.connected[p]
                 m.connected[p] = False
-                m.server_disconnect(p)
-                m.housekeeping()
+                if was is True:          # (a connection that was reset earlier is already gone for the server: nothing reaches it)
+                    m.server_disconnect(p)
+                    m.housekeeping()
             elif op == "reconnect":
                 p = step[1]
                 if p >= len(proxies) or m.connected[p]:
@@ -150,7 +161,7 @@ def play(cfg, hist, V, st):
                 m.housekeeping()
             elif op == "close":
                 si = step[1]
-                if si >= len(iters) or iters[si] is None:
+                if si >= len(iters) or iters[si] is None or m.connected[cfg["streams"][si][1]] == "broken":
                     continue
                 s = m.streams[si]
                 owner = cfg["streams"][si][1]
@@ -187,8 +198,9 @@ def play(cfg, hist, V, st):
                 # ---- model
                 if s.client_done or s.client_closed:
                     want = [("stop", None)]                       # a finished / closed client iterator just stops
-                elif not m.connected[owner]:
+                elif m.connected[owner] is not True:
                     want = [("closed", None)]
+                    m.connected[owner] = False       # a proxy drops its connection when a request fails on it
                 elif not s.alive:
                     want = [("pyroerror", None)]
                     m.housekeeping()
@@ -232,7 +244,11 @@ def play(cfg, hist, V, st):
                 V("server-iterator-advanced-further-than-delivered", "stream %s: %d items pulled, %d delivered" % (s.tag, tgt.pulled.get(s.tag), s.pos), hist)
         if w.net.pump_errors:
             V("daemon-loop-error|%s" % type(w.net.pump_errors[0]).__name__, "%r" % w.net.pump_errors[:2], hist)
-        return (m.key(), pulled)
+        # implementation state the model does not describe is part of the state identity, so that histories which agree in the
+        # model but left the client objects in different conditions are both extended
+        impl = (tuple((it is None, it is not None and it.proxy is None, it is not None and it.proxy is not None and it.pyroseq == it.proxy._pyroSeq) for it in iters),
+                tuple(p._pyroConnection is None for p in proxies))
+        return (m.key(), pulled, impl)
     finally:
         for it in iters:
             if it is not None:
@@ -288,7 +304,7 @@ def letters_for(cfg):
     for l in LETTERS:
         if l[0] in ("next", "close") and l[1] >= ns:
             continue
-        if l[0] in ("release", "reconnect", "ping") and l[1] >= npx:
+        if l[0] in ("release", "reconnect", "ping", "break") and l[1] >= npx:
             continue
         out.append(l)
     return out
@@ -484,7 +500,7 @@ def run(ctx):
     total.points += sst.points
     cov = coverage_from_stats(
         total,
-        rule="(1) BFS (states deduplicated by the model state and the server-side pull counters) over histories of next/close/release/reconnect/ping/housekeeping/clock+10/"
+        rule="(1) BFS (states deduplicated by the model state and the server-side pull counters) over histories of next/close/release/reconnect/connection reset under the proxy/ping/housekeeping/clock+10/"
              "clock+40 steps to depth %d on 1-2 streams from 1-2 proxies, stream kinds {three items, empty, raising at index 1, plain iterator}, ITER_STREAM_LIFETIME {0,5} x "
              "ITER_STREAM_LINGER {0,30}, plus streaming disabled, on a real Proxy/Daemon pair with a virtual clock; every delivered item/StopIteration/exception/error "
              "and the size of the server's stream table after every step are compared with a list model; (2) every schedule (line granularity, preemption bound 2-3) of "
